@@ -383,11 +383,75 @@ func (g *Gen) intsArg(d int) *X {
 	}
 }
 
+// AfterInner: outer(<floats or strings>, { <inner builtin over ints> ... and/or # in <literal range / array> }):
+// after an inner builtin has finished, `#` is the OUTER element again - for the checker (whose static type for
+// it licenses the membership rewrites) as for the VM.
+func (g *Gen) AfterInner(d int) *X {
+	var outerSeq *X
+	switch g.pick(4, "aiouter") {
+	case 0:
+		outerSeq = Var("Fs", TFloats)
+	case 1:
+		outerSeq = Arr(SeqOf(TF64, RepIface), LitFloat(1.5), LitFloat(2), LitFloat(0.5))
+	case 2:
+		outerSeq = Var("Ss", TStrs)
+	default:
+		outerSeq = Builtin("map", Var("Xs", TInts), Bin("+", &X{K: "ptr", Ty: TInt}, LitFloat(0.5), TF64), SeqOf(TF64, RepIface))
+	}
+	elem := outerSeq.Ty.Elem
+	ptr := func(ty *Ty) *X { return &X{K: "ptr", Ty: ty} }
+	innerSeq := []*X{Var("Xs", TInts), Var("Ys", TInts), Bin("..", LitInt(1), LitInt(2+g.pick(3, "aihi")), TInts)}[g.pick(3, "aiinner")]
+	innerPred := Bin([]string{">", "<=", "!="}[g.pick(3, "aiop")], ptr(TInt), LitInt(g.pick(3, "ailit")), TBool)
+	var inner *X
+	switch g.pick(5, "aikind") {
+	case 0:
+		inner = Bin(">=", Builtin("count", innerSeq, innerPred, TInt), LitInt(g.pick(2, "aic")), TBool)
+	case 1:
+		inner = Builtin([]string{"all", "any", "none", "one"}[g.pick(4, "aiq")], innerSeq, innerPred, TBool)
+	case 2:
+		inner = Bin(">", Len(Builtin("filter", innerSeq, innerPred, TAInt)), LitInt(0), TBool)
+	case 3:
+		inner = Bin(">", Len(Builtin("map", innerSeq, Bin("*", ptr(TInt), LitInt(2), TInt), TAInt)), LitInt(0), TBool)
+	default:
+		inner = Bin("==", Builtin("count", innerSeq, innerPred, TInt), Builtin("count", innerSeq, innerPred, TInt), TBool)
+	}
+	var after *X
+	op := []string{"in", "not in"}[g.pick(2, "aiin")]
+	if elem.K == KStr {
+		after = Bin(op, ptr(TStr), Arr(SeqOf(TStr, RepIface), LitStr("a"), LitStr("b")), TBool)
+	} else {
+		switch g.pick(3, "aiafter") {
+		case 0:
+			after = Bin(op, ptr(TF64), Bin("..", LitInt(1), LitInt(3), TInts), TBool)
+		case 1:
+			after = Bin(op, ptr(TF64), Arr(TAInt, LitInt(1), LitInt(2), LitInt(3)), TBool)
+		default:
+			after = Bin("==", ptr(TF64), LitInt(2), TBool)
+		}
+	}
+	body := Bin([]string{"and", "or"}[g.pick(2, "aiconn")], inner, after, TBool)
+	if g.coin("aiswap") {
+		body = Cond(inner, after, LitBool(false), TBool)
+	}
+	switch g.pick(4, "aiouterk") {
+	case 0:
+		return Builtin("filter", outerSeq, body, SeqOf(elem, RepIface))
+	case 1:
+		return Builtin("count", outerSeq, body, TInt)
+	case 2:
+		return Builtin("map", outerSeq, body, SeqOf(TBool, RepIface))
+	default:
+		return Builtin([]string{"all", "any", "none", "one"}[g.pick(4, "aioq")], outerSeq, body, TBool)
+	}
+}
+
 // ConstRoot: a whole program for the rewrite-biased classes.
 func (g *Gen) ConstRoot() *X {
 	g.ConstBias = 40 + g.pick(50, "bias")
 	d := 2 + g.pick(3, "cdepth")
-	switch g.pick(12, "croot") {
+	switch g.pick(13, "croot") {
+	case 12:
+		return g.AfterInner(d)
 	case 0:
 		return g.ConstInt(d + 1)
 	case 1:
